@@ -18,7 +18,7 @@ VERIF = os.path.dirname(os.path.dirname(os.path.abspath(__file__)))
 def digests(prop, runs, hashseed, jobs, seed):
     fd, path = tempfile.mkstemp(prefix="gsim-dig-")
     os.close(fd)
-    env = dict(os.environ, PYTHONHASHSEED=str(hashseed), PYTHONDONTWRITEBYTECODE="1")
+    env = dict(os.environ, PYTHONHASHSEED=str(hashseed), PYTHONDONTWRITEBYTECODE="1", GSIM_LOG_STATE="1")
     cp = subprocess.run(
         ["/venv/bin/python", os.path.join(VERIF, "gsim", "main.py"), prop, "--runs", str(runs), "--seed", str(seed), "--jobs", str(jobs), "--digests", path, "--no-evidence", "--wall", "3000", "--keep-going"],
         capture_output=True, text=True, env=env)
